@@ -39,9 +39,12 @@ ASSUMPTIONS = [
 
 T0 = data.Tag(term=term("species"), value="a")
 T1 = data.Tag(term=term("species"), value="b")
-T2 = data.Tag(term=term("call"), value="a")
-OOV = data.Tag(term=term("species"), value="zzz")
-TAGS = {"t0": T0, "t1": T1, "t2": T2, "oov": OOV}
+T2 = data.Tag(term=term("call"), value="b")
+# out-of-vocabulary tags built to collide with vocabulary tags: "oov" shares its VALUE with t0 (different term), "oovt" shares
+# its TERM with t0/t1 (different value); an encoder keyed too coarsely maps them into the vocabulary
+OOV = data.Tag(term=term("call"), value="a")
+OOVT = data.Tag(term=term("species"), value="zzz")
+TAGS = {"t0": T0, "t1": T1, "t2": T2, "oov": OOV, "oovt": OOVT}
 VOCABS = {"t0t1": ["t0", "t1"], "t1t0": ["t1", "t0"], "t0t1t2": ["t0", "t1", "t2"]}
 
 GEOMS = {
@@ -52,13 +55,13 @@ GEOMS = {
     "I": ("TimeInterval", [1.25, 2.25]),
 }
 ANN_TAGS = {"quick": [[], ["t0"], ["oov", "t1"]],
-            "thorough": [[], ["t0"], ["t1"], ["oov"], ["oov", "t1"]]}
+            "thorough": [[], ["t0"], ["t1"], ["oov"], ["oovt", "t1"]]}
 # predicted (tag, score) lists
 VECS = {
     "quick": [[["t0", 0.5]], [["t0", 0.25], ["t1", 0.5]], [["t1", 0.5], ["oov", 0.25]]],
     "thorough": [[], [["t0", 0.25]], [["t1", 0.25]], [["t0", 0.5]], [["t1", 0.5]], [["t0", 0.25], ["t1", 0.25]],
                  [["t0", 0.5], ["t1", 0.25]], [["t0", 0.25], ["t1", 0.5]], [["t0", 0.5], ["t1", 0.5]],
-                 [["t1", 0.5], ["oov", 0.5]]],
+                 [["t1", 0.5], ["oovt", 0.5]]],
 }
 GKEYS = {"quick": ["none", "A", "B", "C"], "thorough": ["none", "A", "B", "C"]}
 
